@@ -72,7 +72,7 @@ def rule_freeze(F):
     return res
 
 
-FORBIDDEN_CALLS = ("Rc::<T>::as_ptr", "Rc::as_ptr", "into_raw", "from_raw", "get_mut_unchecked", "increment_strong_count", "decrement_strong_count",
+FORBIDDEN_CALLS = ("Rc::ptr_eq", "Arc::ptr_eq", "ptr::eq", "ptr::addr_eq", "Rc::strong_count", "Rc::weak_count", "Rc::<T>::as_ptr", "Rc::as_ptr", "into_raw", "from_raw", "get_mut_unchecked", "increment_strong_count", "decrement_strong_count",
                    "ptr::read", "ptr::write", "ptr::copy", "mem::transmute", "transmute", "ptr::swap", "ptr::replace", "mem::zeroed", "MaybeUninit",
                    "from_raw_parts", "unreachable_unchecked", "get_unchecked", "unwrap_unchecked", "assume_init")
 
@@ -203,6 +203,61 @@ def rule_cborder(F):
                 else:
                     res.bad("M-CBORDER:%s:recursion-args" % fname.rsplit("::", 1)[-1], b.where(bb),
                             "%s recurses with (left, right) derived from %s / %s" % (fname, sorted(at[0]), sorted(at[1])))
+        # on every path on which both operands are non-empty, the right operand is split at the left root's key (the only
+        # way common keys are found and handed to the callback): no shortcut may return a combination of two non-empty trees
+        tup = None
+        for bl in b.blocks:
+            for s_ in bl["s"]:
+                rv = s_.get("rv")
+                if rv and rv.get("k") == "agg" and rv["ak"] == "tuple" and len(rv["ops"]) == 2:
+                    if t.read_op(rv["ops"][0]) == {"L"} and t.read_op(rv["ops"][1]) == {"R"} and not s_["lhs"][1]:
+                        tup = s_["lhs"][0] if tup is None else tup
+        if tup is None:
+            raise AnchorError("%s no longer matches on the pair (left, right)" % fname)
+
+        def reads_payload(bl, side):
+            def hit(pl):
+                return pl is not None and pl[0] == tup and len(pl[1]) >= 2 and pl[1][0] == ".%d" % side and pl[1][1].startswith("@Some")
+            for s_ in bl["s"]:
+                rv = s_.get("rv") or {}
+                for key in ("op", "a", "b"):
+                    if isinstance(rv.get(key), dict) and hit(op_place(rv[key])):
+                        return True
+                if rv.get("p") is not None and hit(rv["p"]):
+                    return True
+                for o in rv.get("ops", []):
+                    if hit(op_place(o)):
+                        return True
+            for o in bl["t"].get("args", []):
+                if hit(op_place(o)):
+                    return True
+            return False
+        S0 = {i for i, bl in enumerate(b.blocks) if reads_payload(bl, 0)}
+        S1 = {i for i, bl in enumerate(b.blocks) if reads_payload(bl, 1)}
+        splits = {bb for bb, tm in b.calls() if short(callee(tm)) == "wbtree::map::Node::split"}
+        if not S0 or not S1 or not splits:
+            raise AnchorError("%s: payload reads / split calls not found" % fname)
+        seen = set()
+        stack = [(0, 0 in S0, 0 in S1)]
+        bad_ret = None
+        while stack:
+            st_ = stack.pop()
+            if st_ in seen:
+                continue
+            seen.add(st_)
+            blk, a0, a1 = st_
+            if blk in splits:
+                continue
+            if b.blocks[blk]["t"]["k"] == "return" and a0 and a1:
+                bad_ret = blk
+                break
+            for nx in b.succ(blk):
+                stack.append((nx, a0 or nx in S0, a1 or nx in S1))
+        if bad_ret is None:
+            res.ok()
+        else:
+            res.bad("M-CBORDER:%s:both-nonempty-without-split" % fname.rsplit("::", 1)[-1], b.where(bad_ret),
+                    "%s can return on a path that looked at both non-empty operands without splitting one at the other's root: common keys are not handed to the callback" % fname)
         res.sample({"fn": fname, "callback_calls": ncb})
     # WBTreeMap::{union,difference}: (self.root, other.root, callback)
     for fname, node_fn in (("wbtree::map::WBTreeMap::union", "wbtree::map::Node::union"), ("wbtree::map::WBTreeMap::difference", "wbtree::map::Node::difference")):
